@@ -402,6 +402,9 @@ class StyleProperties:
 
     @classmethod
     def extract(cls, context: StyleParsingContext, xml_attrib: str):
+      if not xml_attrib.isascii():
+        raise ValueError("Numbers consist of ASCII digits")
+
       return float(xml_attrib)
 
     @classmethod
@@ -437,6 +440,9 @@ class StyleProperties:
 
     @classmethod
     def extract(cls, context: StyleParsingContext, xml_attrib: str):
+      if not xml_attrib.isascii():
+        raise ValueError("Numbers consist of ASCII digits")
+
       return float(xml_attrib)
 
     @classmethod
